@@ -122,6 +122,20 @@ int vp_case(Choice& c, Report& rep) {
         VP_REQUIRE(m[ch] == 0.f, "c19:softclip-memory-after-in-range", "channel %d in range with zero memory, memory became %.9g", ch, m[ch]);
         any_pass = true;
       }
+      // The state memory carries an excursion into the next frame only when the frame ends inside it.  From the *input* alone: if the frame has no
+      // over-range sample, or its last over-range sample is followed by a strict sign change before the frame ends, the excursion is closed and the
+      // memory must come back as zero (so that a following in-range frame is left untouched, as documented).
+      {
+        int last_over = -1;
+        for (int i = 0; i < N; i++) { float a = in[(size_t)i * C + ch]; if (a > 1.f || a < -1.f) last_over = i; }
+        bool closed = last_over < 0;
+        if (!closed) { float a = in[(size_t)last_over * C + ch]; for (int j = last_over + 1; j < N && !closed; j++) if (in[(size_t)j * C + ch] * a < 0) closed = true; }
+        if (closed) {
+          VP_REQUIRE(m[ch] == 0.f, "c19:softclip-memory-not-cleared", "C=%d N=%d frame %d channel %d (%s amp %g): the last over-range sample (index %d) is followed by a zero crossing inside the frame, yet the state memory is %.9g",
+                     C, N, fr, ch, SHAPE_NAME[shape[ch]], amp[ch], last_over, m[ch]);
+          if (last_over >= 0) rep.label("excursion-closed-inside-frame");
+        }
+      }
       if (loud) any_clip = true;
       if (mem[ch] != 0.f) any_mem_carry = true;
       if (shape[ch] == EDGE) any_edge = true;
